@@ -380,27 +380,34 @@ def run(chk, replay_case=None, replay=None):
             if res not in ("ok", None):
                 chk.violation("C06/pattern-seq/" + res[0], res[1], key)
     # behaviours
-    jobs = []
-    with cf.ThreadPoolExecutor(max_workers=14) as ex:
-        for g in ("none", "sym", "herm"):
-            jobs.append(ex.submit(emit, 2, None, 0, (g,)))
-        if thorough:
-            for c in CLASSES:
-                jobs.append(ex.submit(emit, 3, None, 0, ("none",), (c,)))
-        # focused deeper enumerations: non-symmetric classes, adjoint modes, zero / repeated / new right-hand sides, matrix updates
-        fdepth = 6 if thorough else 5
-        jobs.append(ex.submit(emit, fdepth, None, 0, ("none",), ("rg",), [1, 2, 8], ("N", "T"), (False,)))
-        jobs.append(ex.submit(emit, fdepth, None, 0, ("none",), ("cg",), [1, 6, 8], ("T", "H"), (False,)))
-        jobs.append(ex.submit(emit, fdepth, None, 0, ("none",), ("rs", "rg"), [1, 3, 8], ("T",), (False,)))
-        nsim = 2500 if thorough else 100
-        for j in range(12 if thorough else 8):
-            jobs.append(ex.submit(emit, 8, nsim, chk.seed * 53 + j))
-        for j in range(12 if thorough else 6):
-            jobs.append(ex.submit(emit, 14, nsim // 2, chk.seed * 59 + j))
-        for j in cf.as_completed(jobs):
-            r = j.result()
-            chk.transitions += r.generated
-            chk.tlc_runs.append({"module": "LDAS", "label": "emit", "generated": r.generated, "distinct": r.distinct,
-                                 "wall_s": round(r.wall, 2)})
-            behs = [v[0] for tag, v in r.printed if tag == "BEH"]
-            check_behaviours(chk, behs)
+    # emission runs are taken a few at a time and their results dropped as soon as they are replayed (memory stays bounded)
+    plan = []
+    for g in ("none", "sym", "herm"):
+        plan.append((2, None, 0, (g,)))
+    if thorough:
+        for c in CLASSES:
+            plan.append((3, None, 0, ("none",), (c,)))
+    # focused deeper enumerations: non-symmetric classes, adjoint modes, zero / repeated / new right-hand sides, matrix updates
+    fdepth = 6 if thorough else 5
+    plan.append((fdepth, None, 0, ("none",), ("rg",), [1, 2, 8], ("N", "T"), (False,)))
+    plan.append((fdepth, None, 0, ("none",), ("cg",), [1, 6, 8], ("T", "H"), (False,)))
+    plan.append((fdepth, None, 0, ("none",), ("rs", "rg"), [1, 3, 8], ("T",), (False,)))
+    nsim = 1500 if thorough else 100
+    for j in range(12 if thorough else 8):
+        plan.append((8, nsim, chk.seed * 53 + j))
+    for j in range(12 if thorough else 6):
+        plan.append((14, nsim // 2, chk.seed * 59 + j))
+    width = 6
+    for k in range(0, len(plan), width):
+        with cf.ThreadPoolExecutor(max_workers=width) as ex:
+            futs = [ex.submit(emit, *args) for args in plan[k:k + width]]
+            for j in cf.as_completed(futs):
+                r = j.result()
+                chk.transitions += r.generated
+                chk.tlc_runs.append({"module": "LDAS", "label": "emit", "generated": r.generated, "distinct": r.distinct,
+                                     "wall_s": round(r.wall, 2)})
+                behs = [v[0] for tag, v in r.printed if tag == "BEH"]
+                r.printed = []
+                check_behaviours(chk, behs)
+                del behs, r
+            del futs
